@@ -237,7 +237,13 @@ def _propagate(ctx, spec, t0, t2, x, rel, w, mon, ttype="float", events=None):
     d = _dyn(spec)
     a, b = _times([t0, t2], ttype)
     x = np.array(x, dtype=float) if not isinstance(x, np.ndarray) else x
-    y = _call(ctx, lambda: d.propagate(a, b, x.copy() if x.flags.c_contiguous else x, scheduled_events=events), rel, w, mon)
+    xin = x.copy() if x.flags.c_contiguous else x
+    before = np.array(xin, copy=True)
+    y = _call(ctx, lambda: d.propagate(a, b, xin, scheduled_events=events), rel, w, mon)
+    if y is not None:
+        # the state handed in stays the caller's (agents hand in their own eci_state): a propagation returns a new state
+        ctx.check(before.tobytes() == np.asarray(xin).tobytes() and y is not xin, "propagate-modified-its-input",
+                  f"{spec['method']} propagate changed the state array it was handed (max change {float(np.abs(np.asarray(xin, dtype=float) - before).max()):.3g})", w, mon="input_unchanged")
     return None if y is None else np.asarray(y, dtype=float)
 
 
@@ -590,7 +596,10 @@ def rel_bulk(ctx, spec, X, times, ttype="float", container="list", te=None, dtyp
     if container == "array" and ttype == "float":
         tt = np.array(tt)
     events = [_null_event(te)] if ev else None
-    out = _call(ctx, lambda: d.propagateBulk(tt, Xin.copy(), scheduled_events=events), rel, w, mon)
+    Xarg = Xin.copy()
+    out = _call(ctx, lambda: d.propagateBulk(tt, Xarg, scheduled_events=events), rel, w, mon)
+    if out is not None:
+        ctx.check(Xarg.tobytes() == Xin.tobytes(), "propagate-bulk-modified-its-input", f"{spec['method']} propagateBulk changed the state array it was handed", w, mon="input_unchanged")
     if out is None:
         return False
     out = np.asarray(out, dtype=float)
